@@ -106,9 +106,10 @@ const (
 	siteSinkWrite
 	siteSigner
 	siteInstr
+	siteRelease
 )
 
-var siteNames = []string{"other", "after.get", "after.defaults", "after.name", "after.prepare", "sink.write", "signer.call", "instr"}
+var siteNames = []string{"other", "after.get", "after.defaults", "after.name", "after.prepare", "sink.write", "signer.call", "instr", "instr.release"}
 
 const msgHold = 3
 
@@ -593,8 +594,14 @@ func runBaton(clients []*c12client, plan *C12Plan) (schedule []Switch, trace []s
 			}
 		} else if curRunnable {
 			p := plan.SwitchP
-			if code == siteInstr {
+			if code == siteInstr || code == siteRelease {
 				p = plan.InstrSwitchP
+			}
+			// right after a client handed something back (Close, Put, Flush,
+			// between its deferred calls): the window in which a resource that
+			// was released too early is picked up by somebody else
+			if plan.Guided && code == siteRelease && p < 0.4 {
+				p = 0.4
 			}
 			if plan.Guided && (code == siteAfterGet || code == siteAfterDefaults || code == siteAfterPrepare || code == siteAfterName) && p < 0.7 {
 				p = 0.7
